@@ -45,7 +45,13 @@ def cases(draw, tier):
     idk = "tsv" if variant.startswith("cli") else \
         draw(st.sampled_from(["unicode", "simple"]))
     vk = draw(st.sampled_from(["wild", "count", "int"]))
-    spec = draw(gen.h5_table_specs(tier, values=vk, ids=idk))
+    shape = None
+    if variant == "cli_json" and draw(st.integers(0, 2)) == 0:
+        # two-digit positions on one axis (the text slicer works on index
+        # strings; orderings of "9" and "10" must not matter)
+        big, small = draw(st.integers(9, 14)), draw(st.integers(1, 4))
+        shape = (big, small) if draw(st.booleans()) else (small, big)
+    spec = draw(gen.h5_table_specs(tier, values=vk, ids=idk, shape=shape))
     spec["obs_gmd"] = spec["samp_gmd"] = None
     return {"table": spec, "axis": draw(ops.AX), "mask": draw(ops.MASK),
             "order": draw(ops.KEY), "variant": variant,
